@@ -32,6 +32,7 @@ DECIDED = [
     "C08.6 access parameters: only nets_* keys, suffixed by the producing worker, unknown producer raises",
     "C08.7 run_test_task spawns with the started worker's spawner/session; missing worker or spawner raises first",
     "C08.8 a worker's cached remote session is keyed by host and port of its own login",
+    "C08.9 results of replayed jobs (the producers of previous runs) are all kept: missing files raise, nothing is dropped or replaced",
 ]
 NOT_DECIDED = ["which worker produces a state (schedule)"]
 MIN_INSTANCES = 30
@@ -57,6 +58,12 @@ def access_params_rule(ctx: Ctx, rule: str) -> None:
             ])
             if not norm.implies(prem, req):
                 problems.append((f"a worker parameter is copied without the nets_ filter or from a worker other than the producer: {first_line(s)}", v))
+            # ... and nothing else filters them: every nets_ key of the producer is copied, whatever its value
+            key_loop = [k for k, st in enumerate(v.steps) if st.kind == "iter" and st.extra == "next" and ast.unparse(st.node.iter) == f"{wk}.params"]
+            if key_loop:
+                inner = [ast.unparse(st.node) for st in v.steps[key_loop[-1]:i] if st.kind == "cond"]
+                if inner != [f"not {key}.startswith('nets_')"]:
+                    problems.append((f"access parameters of the producer are additionally filtered: {inner}", v))
             tkey = norm.concat_parts(v.canon(s.targets[0].slice, i))
             if tkey != [key, "'_'", "wid"]:
                 problems.append((f"the copied parameter is not stored under <key>_<producing worker>: {tkey}", v))
@@ -169,6 +176,9 @@ def run(ctx: Ctx) -> None:
     ctx.call(access_params_rule, "6")
     ctx.call(run_task_rule, "7")
     ctx.call(session_identity, "8")
+    from .c10 import replay_loading
+
+    ctx.call(replay_loading, "9")
     ctx.call(T.t_o1, "5o/T.O1")
 
 
@@ -183,6 +193,7 @@ MUTANTS = [
      "        if test_node.is_occupied(worker):\n            return\n        worker = test_node.finished_worker or worker\n        test_node.started_worker = worker\n        if test_node.should_clean(worker):", "1/T.W1"),
     ("pick-other-workers-nodes", NODE, "            n\n            for n in self.cleanup_nodes\n            if worker.id in n.params[\"name\"] or n.is_flat()\n        ]", "            n\n            for n in self.cleanup_nodes\n        ]", "3pc"),
     ("session-of-finished-worker", R, "task.spawner_handle = node.started_worker.get_session()", "task.spawner_handle = node.finished_worker.get_session()", "7c"),
+    ("empty-access-params-skipped", NODE, "                            if not key.startswith(\"nets_\"):\n                                continue\n", "                            if not key.startswith(\"nets_\") or not worker.params[key]:\n                                continue\n", "6"),
     ("session-key-host-only", "cartgraph/worker.py", "address = self.params[\"nets_shell_host\"] + \":\" + self.params[\"nets_shell_port\"]", "address = self.params[\"nets_shell_host\"]", "8"),
     ("P-fstring-key", NODE, "self.params[f\"{key}{source_suffix}\"] = worker.params[key]", "self.params[key + source_suffix] = worker.params[key]", None),
 ]
